@@ -299,10 +299,16 @@ package h2
 //@ extern func (*http2.Framer).WriteGoAway
 //@   modifies lastConnWriteErr
 //@   ensures lastConnWriteErr == result
+//@ ghost var nSetW int
+//@ extern func (*http2.Framer).WriteSettings
+//@   modifies lastConnWriteErr, nSetW
+//@   ensures lastConnWriteErr == result && nSetW == old(nSetW) + 1
 //@ func (*relay).processFrame
 //@   serves C08
 //@   modifies lastConnWriteErr
 //@   ensures[failed-write-of-a-connection-frame-is-the-relays-error; C10] typeis(f, *http2.PingFrame) || typeis(f, *http2.GoAwayFrame) ==> result == lastConnWriteErr
+//@   modifies nSetW
+//@   ensures[failed-forward-of-settings-is-the-relays-error; C10] nSetW == old(nSetW) + 1 ==> result == lastConnWriteErr
 //@   requires r != nil && r.peer != nil && relayReady(r) && relayReady(r.peer) && contInv(r) && ref(f) != nil
 //@   modifies relay.*, outputBuffer.*, list.List.*, list.Element.*, list.List.gfront, list.List.glen, list.Element.gnext, outputBuffer.sentS, sync.Mutex.held, bytes.Buffer.blen, bytes.Buffer.bparts, bytes.Buffer.bfirst, bytes.Buffer.bview
 //@   modifies sentConn, pcN, pcKind, pcSelf, pcEnd, pcData, pcHeaders, pcPrio, pcCode, pcPromise, lastDecoded, pendEnd, pendPrio, pendPromise, lastDecodedFrom, rlN, rlKind, rlSelf, rlID, rlEnd, rlData, rlHeaders, rlPrio, rlCode, rlPromise
@@ -550,6 +556,7 @@ package h2
 //@   modifies wrN, wrKindAt, wrStreamAt, wrFragAt, wrEndStreamAt
 //@   ensures[data-frame-as-queued] wrN == old(wrN) + 1 && wrKindAt[old(wrN)] == 0 && wrStreamAt[old(wrN)] == f.streamID && wrFragAt[old(wrN)] == f.data && wrEndStreamAt[old(wrN)] == f.endStream
 
+//@ ghost var contFailed bool
 //@ func (*queuedHeaderFrame).send
 //@   serves C08
 //@   safe index
@@ -561,6 +568,13 @@ package h2
 //@   ensures[continuations-in-order-end-headers-on-last] result == nil ==> forall k int :: 1 <= k && k < len(f.chunks) ==>
 //@        wrKindAt[old(wrN)+k] == 9 && wrStreamAt[old(wrN)+k] == f.streamID && wrFragAt[old(wrN)+k] == f.chunks[k] && wrEndHeadersAt[old(wrN)+k] == (k == len(f.chunks)-1)
 //@   loop 0 invariant 1 <= i && i <= len(f.chunks) && wrN == old(wrN) + i
+// contFailed: a CONTINUATION write of this header block failed; then send reports an error (the writer goroutine hands
+// it to the reader, which tears the connection pair down)
+//@   modifies contFailed
+//@   at entry 0 before set contFailed = false
+//@   at call all of WriteContinuation after set contFailed = contFailed || result != nil
+//@   loop 0 invariant[no-continuation-write-has-failed-so-far; C10 C08] !contFailed
+//@   ensures[a-failed-continuation-write-is-reported; C10 C08] contFailed ==> result != nil
 //@   loop 0 invariant wrKindAt[old(wrN)] == 1 && wrStreamAt[old(wrN)] == f.streamID && wrFragAt[old(wrN)] == f.chunks[0] && wrEndStreamAt[old(wrN)] == f.endStream &&
 //@        wrPrioAt[old(wrN)] == f.priority && wrEndHeadersAt[old(wrN)] == (len(f.chunks) == 1)
 //@   loop 0 invariant forall k int :: 1 <= k && k < i ==>
